@@ -129,3 +129,9 @@ OPTIN = {
     S('list-picky-concat', 'base', 'prop=C12', 'kind=list', 'elem=picky', 'maxlen=3', 'poisonconcat=1'),
   ],
 }
+
+# the concat-with-a-refused-source-element instances run by default; what remains after the concat repair (67f5339) is the
+# known finding "concat is not atomic" (label */picky/concat/refused-element-in-source/partially-appended)
+for _pid in ('C05', 'C12'):
+    for _tier in ('quick', 'thorough'):
+        PARTS[_pid][_tier] = PARTS[_pid][_tier] + OPTIN[_pid]
